@@ -99,6 +99,7 @@ func instFresh(q *Term) *Term {
 // ---------------------------------------------------------------- instantiation
 
 type instCtx struct {
+	sels   []gsel // ground reads/writes (array and index both closed)
 	ground map[string]map[*Term]bool // ground index terms by array sort / function argument
 	byArr  map[*Term]map[*Term]bool  // ground index terms by the exact array term read
 	quants map[*Term]bool
@@ -135,6 +136,9 @@ func (ic *instCtx) scan(t *Term, bmemo map[*Term]bool) {
 	if t.Op == "select" || t.Op == "store" {
 		i := t.Args[1]
 		if !containsBound(i, bmemo) {
+			if !containsBound(t.Args[0], bmemo) {
+				ic.sels = append(ic.sels, gsel{t.Args[0], i})
+			}
 			k := t.Args[0].S.String()
 			m := ic.ground[k]
 			if m == nil {
@@ -334,8 +338,38 @@ func InstantiateSeeded(asserts []*Term, rounds int, capPerQuant int, seedRoots i
 		sort.Slice(qs, func(i, j int) bool { return qs[i].id < qs[j].id })
 		added := 0
 		insts := map[*Term][]*Term{}
+		var byKey map[string][]gsel
+		if strictInst {
+			sort.SliceStable(ic.sels, func(i, j int) bool {
+				if ic.sels[i].arr.id != ic.sels[j].arr.id {
+					return ic.sels[i].arr.id < ic.sels[j].arr.id
+				}
+				return ic.sels[i].idx.id < ic.sels[j].idx.id
+			})
+			byKey = indexGround(ic.sels)
+		}
 		for _, q := range qs {
 			body := q.Args[0]
+			if strictInst {
+				for _, tup := range strictTuples(q, ic.sels, byKey, ic.ground, capPerQuant) {
+					m := map[*Term]*Term{}
+					var kt *Term = True
+					for bi, bv := range q.Bound {
+						m[bv] = tup[bi]
+						kt = mk("tuple", "", SBool, nil, nil, kt, tup[bi])
+					}
+					dk := [2]*Term{q, kt}
+					if done[dk] {
+						continue
+					}
+					done[dk] = true
+					inst := Subst(body, m)
+					insts[q] = append(insts[q], inst)
+					generated = append(generated, inst)
+					added++
+				}
+				continue
+			}
 			// candidate values per bound variable
 			cands := make([][]*Term, len(q.Bound))
 			for bi, bv := range q.Bound {
@@ -572,4 +606,51 @@ func termSize(t *Term) int {
 	}
 	sizeMemo[t] = n
 	return n
+}
+
+// dropPosForalls replaces every pattern-less universal in positive position by
+// true (a weakening of an assumption: sound for proving). Quantifiers in negative
+// or unknown polarity are kept.
+func dropPosForalls(t *Term) *Term {
+	memo := map[[2]any]*Term{}
+	var rec func(t *Term, pos bool) *Term
+	rec = func(t *Term, pos bool) *Term {
+		if !quantInside(t) {
+			return t
+		}
+		k := [2]any{t, pos}
+		if r, ok := memo[k]; ok {
+			return r
+		}
+		var r *Term
+		switch t.Op {
+		case "forall":
+			if pos && len(t.Pats) == 0 {
+				r = True
+			} else {
+				r = t
+			}
+		case "and", "or":
+			args := make([]*Term, len(t.Args))
+			for i, a := range t.Args {
+				args[i] = rec(a, pos)
+			}
+			r = rebuild(t, args)
+		case "not":
+			r = Not(rec(t.Args[0], !pos))
+		case "=>":
+			r = Implies(rec(t.Args[0], !pos), rec(t.Args[1], pos))
+		case "ite":
+			if t.S == SBool && !quantInside(t.Args[0]) {
+				r = Ite(t.Args[0], rec(t.Args[1], pos), rec(t.Args[2], pos))
+			} else {
+				r = t
+			}
+		default:
+			r = t
+		}
+		memo[k] = r
+		return r
+	}
+	return rec(t, true)
 }
